@@ -55,7 +55,7 @@ def gen_beh(rng: random.Random, outs: List[str], durs: Optional[List[List[Any]]]
 
 
 def gen_cfg(rng: random.Random, allow_none_A: bool = True, n_ok: bool = True) -> Dict[str, Any]:
-    A = rng.choice(([None] if allow_none_A else []) + [1, 1, 2, 2, 3, 4])
+    A = rng.choice(([None, None, None, 0, -1] if allow_none_A else []) + [1, 1, 2, 2, 3, 4] * 3)  # None / 0 / -1: no limit
     cfg: Dict[str, Any] = {"A": A, "P": rng.choice([0, 0, 1, 2, 3, 4])}
     if n_ok and rng.random() < 0.3:
         cfg["N"] = rng.randint(1, 6)
@@ -243,7 +243,7 @@ def gen_c01_spec(rng: random.Random, maxn: int = 40) -> Dict[str, Any]:
         r = rng.random()
         kind = "valid" if r < 0.75 else ("malformed" if r < 0.9 else "unknown")
         m: Dict[str, Any] = {"at": ats[i], "kind": kind, "variant": rng.randint(0, 12),
-                             "task": rng.choice(["t_async", "t_async", "t_sync"]),
+                             "task": rng.choice(["t_async", "t_async", "t_sync", "t_async", "t_async", "t_sync", "t_asyncified"]),
                              "ackable": rng.random() < 0.5,
                              "beh": gen_beh(rng, ["ok", "ok", "raise", "noresult"])}
         if m["task"] == "t_sync":
@@ -485,8 +485,17 @@ def gen_c02_spec(rng: random.Random) -> Dict[str, Any]:
         msgs.append(m)
     if rng.random() < 0.3:
         add_same_id_messages(rng, msgs, 0.4)
+    W = None
+    if rng.random() < 0.12:
+        # graceful shutdown with a short wait_tasks_timeout while sync task functions still hold their threads:
+        # giving up on them must not acknowledge them
+        W = rng.choice([0.1, 0.3])
+        for m_ in msgs:
+            if m_["task"] in ("t_sync", "t_plain_sync") and rng.random() < 0.8:
+                m_["beh"]["sync_hold"] = rng.choice([1.0, 2.0])
     spec: Dict[str, Any] = {
-        "cfg": {"A": rng.choice([1, 2, 4, None]), "P": rng.choice([0, 1, 3]), "ack": ack},
+        # (enough executor threads for every sync function that parks its thread for virtual time)
+        "cfg": {"A": rng.choice([1, 2, 4, None]), "P": rng.choice([0, 1, 3]), "ack": ack, "W": W, "threads": len(msgs) + 2},
         "msgs": msgs, "end_stream": True,
         "backend": {"lat": rng.choice([0, 0, "y", 0.01, 0.1]), "fail": fail},
     }
